@@ -12,18 +12,30 @@ package executor
 //@   assert before syscall.Kill [C05 signal_goes_to_the_whole_process_group] arg0 == 0 - e.cmd.Process.Pid && isType(sig, "syscall.Signal") && arg1 == asType(sig, "syscall.Signal")
 //@   ensures [C05 no_process_no_signal] (e.cmd == nil || e.cmd.Process == nil) ==> err == nil
 
+// The command's environment (C11): the process environment first, then the step's variables, then the DAG-level
+// entries, and after all of these the run's output variables — a later entry wins in os/exec, so a captured output
+// overrides an inherited variable of the same name.
+//@ ghost obs.cmd_env []string      // the command's environment before the output variables are appended
 //@ fn newCommand(ctx, step) (e, err)
 //@   props C05 C11
 //@   modifies *
-//@   ensures [C05 step_runs_in_a_process_group_of_its_own] err == nil ==> (isType(e, "*commandExecutor") && asType(e, "*commandExecutor").cmd != nil &&
-//@        asType(e, "*commandExecutor").cmd.SysProcAttr != nil && asType(e, "*commandExecutor").cmd.SysProcAttr.Setpgid &&
-//@        asType(e, "*commandExecutor").cmd.SysProcAttr.Pgid == 0)
+//@   callback (*sync.Map).Range invariant [C11 output_variables_come_after_everything_else]
+//@        len(cmd.Env) >= entry(len(cmd.Env)) && (forall i int :: 0 <= i && i < entry(len(cmd.Env)) ==> cmd.Env[i] == entry(cmd.Env[i]))
+//@   assert before (*sync.Map).Range [C11 environment_has_three_parts] len(cmd.Env) == len(obs.environ) + len(step.Variables) + len(dagContext.Envs)
+//@   assert before (*sync.Map).Range [C11 process_environment_comes_first] forall i int :: 0 <= i && i < len(obs.environ) ==> cmd.Env[i] == obs.environ[i]
+//@   assert before (*sync.Map).Range [C11 then_the_step_s_variables] forall i int :: 0 <= i && i < len(step.Variables) ==> cmd.Env[len(obs.environ) + i] == step.Variables[i]
+//@   assert before (*sync.Map).Range [C11 then_the_dag_level_entries] forall i int :: 0 <= i && i < len(dagContext.Envs) ==>
+//@        cmd.Env[len(obs.environ) + len(step.Variables) + i] == dagContext.Envs[i].Key + "=" + dagContext.Envs[i].Value
+//@   assert after (*sync.Map).Range [C11 earlier_entries_survive_the_output_variables]
+//@        len(cmd.Env) >= len(obs.environ) + len(step.Variables) + len(dagContext.Envs) &&
+//@        (forall i int :: 0 <= i && i < len(obs.environ) ==> cmd.Env[i] == obs.environ[i]) &&
+//@        (forall i int :: 0 <= i && i < len(step.Variables) ==> cmd.Env[len(obs.environ) + i] == step.Variables[i])
 
 // The callback that hands the run's output variables to the command: each entry (NAME=value) is appended to the
 // command's environment, after everything that is already there (so that it wins over an inherited variable).
 //@ fn newCommand$1(k, value) (r)
 //@   props C11
-//@   modifies cmd.Env, heap(alloc), heap(elems(string))
+//@   modifies cmd.Env, heap(alloc)
 //@   ensures [C11 output_variable_is_appended_to_the_environment] r && len(cmd.Env) == old(len(cmd.Env)) + 1 &&
 //@        cmd.Env[old(len(cmd.Env))] == asType(value, "string") &&
 //@        (forall i int :: 0 <= i && i < old(len(cmd.Env)) ==> cmd.Env[i] == old(cmd.Env[i]))
